@@ -220,7 +220,14 @@ func runProperty(prop, tier string, timeout int) *checkResult {
 					}
 					comb.Arith = own.Arith
 				}
-				specs.Funcs[mk] = comb
+				// the refinement unit is separate from the method's own contract (which callers of the concrete
+				// method use, with its own precise frame): same body, verified against the interface contract too
+				if im.Separate {
+					comb.implOf = mk
+					specs.Funcs[mk+"@"+ifaceKey] = comb
+				} else {
+					specs.Funcs[mk] = comb
+				}
 			}
 		}
 		// closures / functions declared to implement a funcspec are verified against it as well
@@ -238,6 +245,11 @@ func runProperty(prop, tier string, timeout int) *checkResult {
 			fc.ResNames = fs.ResNames
 			fc.Clauses = append(append([]*Clause{}, fs.Clauses...), fc.Clauses...)
 			fc.Facets = append(fc.Facets, fs.Facets...)
+			for k, v := range fs.Opts {
+				if _, has := fc.Opts[k]; !has {
+					fc.Opts[k] = v
+				}
+			}
 		}
 		keys = keys[:0]
 		for k, fc := range specs.Funcs {
@@ -252,6 +264,9 @@ func runProperty(prop, tier string, timeout int) *checkResult {
 			}
 			fc := specs.Funcs[k]
 			fn := funcs[k]
+			if fc.implOf != "" {
+				fn = funcs[fc.implOf]
+			}
 			if fn == nil {
 				if strings.HasPrefix(fc.File, repoRoot()) {
 					res.missingFns = append(res.missingFns, k)
@@ -259,6 +274,13 @@ func runProperty(prop, tier string, timeout int) *checkResult {
 				continue
 			}
 			un := verifyFunc(p, specs, fn, fc, UnitOpts{Safety: len(fc.Safety) > 0})
+			if fc.implOf != "" {
+				for _, o := range un.obls {
+					if strings.HasPrefix(o.Name, fc.implOf+"/") {
+						o.Name = k + o.Name[len(fc.implOf):]
+					}
+				}
+			}
 			ur := &unitRun{key: k, module: mn, un: un}
 			res.units = append(res.units, ur)
 			res.funcs++
@@ -277,6 +299,27 @@ func runProperty(prop, tier string, timeout int) *checkResult {
 			for n := range un.notes {
 				res.notes[n] = true
 			}
+			wg.Add(1)
+			go func(ur *unitRun) {
+				defer wg.Done()
+				res.solver.solveAll(ur.un, ur.obls)
+			}(ur)
+		}
+		// wire shapes (structural obligations)
+		for _, w := range specs.Wires {
+			mine := false
+			for _, pp := range w.Props {
+				if pp == prop {
+					mine = true
+				}
+			}
+			if !mine || p.byName[w.Pkg] == nil || !p.isInitial(w.Pkg) {
+				continue
+			}
+			un := verifyWire(p, specs, w)
+			ur := &unitRun{key: "wire " + w.Pkg + "." + w.Type, module: mn, un: un}
+			res.units = append(res.units, ur)
+			ur.obls = un.obls
 			wg.Add(1)
 			go func(ur *unitRun) {
 				defer wg.Done()
@@ -393,9 +436,15 @@ func writeReplay(prop string, o *Obl, reason string, smt string) (string, bool) 
 		"smt_query": smt, "replay_outcome": "no-failing-input-found", "candidate_model_only": o.Candidate,
 	}
 	reproduced := false
-	if rm := findReplayTemplate(o.Name); rm != nil {
+	// every scenario filed for this obligation is tried (at most four) until one fails on the real code
+	var tried []string
+	for i, rm := range findReplayTemplates(o.Name) {
+		if i >= 4 {
+			break
+		}
 		rm.model = o.Model
 		ro := runReplay(rm, filepath.Join(verifRoot(), ".work", prop, "replay"))
+		tried = append(tried, filepath.Base(rm.dir))
 		rec["replay_scenario"] = rm.What
 		rec["go_test_source"] = ro.Source
 		rec["overlay"] = ro.Overlay
@@ -404,10 +453,11 @@ func writeReplay(prop string, o *Obl, reason string, smt string) (string, bool) 
 		if ro.Reproduced {
 			rec["replay_outcome"] = "reproduced"
 			reproduced = true
-		} else {
-			rec["replay_outcome"] = "not-reproduced"
+			break
 		}
+		rec["replay_outcome"] = "not-reproduced"
 	}
+	rec["replay_scenarios_tried"] = tried
 	data, _ := json.MarshalIndent(rec, "", " ")
 	os.WriteFile(path, data, 0o644)
 	return path, reproduced
